@@ -338,6 +338,7 @@ class MultiThreadRunner(BaseRunner):
 
     def runner_loop_iteration(self) -> None:
         """Execute one iteration of the runner loop."""
+        self._cleanup_dead_processes()
         self._scale_up_processes()
 
     def _waiting_for_results(
